@@ -52,6 +52,7 @@ type SourceCfg struct {
 	Name    string
 	ChainID uint64
 	Batch   int
+	StrayStart, StrayStop uint64 // start / stop written on the eth_sources entry (no effect)
 	TwoURLs bool   // the source is configured with two URLs (both reach Node)
 	URL2    string
 	Conc    int
@@ -128,6 +129,14 @@ func NewWorld(t fataler, sources []*SourceCfg, decls []*refmodel.Decl, opts ...W
 		s.Node.ChainID = s.ChainID
 		s.URL = ns.Attach(s.Node, "")
 		sj := map[string]any{"name": s.Name, "chain_id": s.ChainID, "url": s.URL, "batch_size": s.Batch, "concurrency": s.Conc, "poll_duration": "1h"}
+		if s.StrayStart > 0 {
+			// start / stop on the eth_sources entry itself: accepted by the decoder, without meaning there
+			// (a range belongs to an integration's reference to the source)
+			sj["start"] = s.StrayStart
+			if s.StrayStop > 0 {
+				sj["stop"] = s.StrayStop
+			}
+		}
 		if s.TwoURLs {
 			// a second endpoint of the same provider: requests rotate over both
 			s.URL2 = ns.Attach(s.Node, "")
